@@ -806,6 +806,23 @@ pub fn check_signal_reload(c: &u8) -> Outcome {
             if connect(Some(&client_paths[0])).await.map_err(|e| ("c17-signal-connect".to_string(), e))? != l0.2 {
                 return Err(("c17-signal-stale-identity".to_string(), "the initial handshake does not present the configured leaf".to_string()));
             }
+            // 0. the port speaks TLS only: a peer that sends a plain-text HTTP request (here a complete, valid tunnel upgrade) must
+            //    get no HTTP service - no handshake, no client certificate, no tunnel
+            for req in ["GET /ws HTTP/1.1\r\nHost: reload.test\r\nConnection: upgrade\r\nUpgrade: websocket\r\nSec-WebSocket-Version: 13\r\nSec-WebSocket-Protocol: penguin-v7\r\nSec-WebSocket-Key: dGhlIHNhbXBsZSBub25jZQ==\r\n\r\n", "GET /health HTTP/1.1\r\nHost: reload.test\r\n\r\n"] {
+                let mut tcp = tokio::net::TcpStream::connect(("127.0.0.1", port)).await.map_err(|e| ("c17-signal-connect".to_string(), format!("tcp: {e}")))?;
+                tcp.write_all(req.as_bytes()).await.ok();
+                let mut got = vec![];
+                let mut b = [0u8; 64];
+                while got.len() < 12 {
+                    match tokio::time::timeout(std::time::Duration::from_secs(3), tcp.read(&mut b)).await {
+                        Ok(Ok(n)) if n > 0 => got.extend_from_slice(&b[..n]),
+                        _ => break,
+                    }
+                }
+                if got.starts_with(b"HTTP/") {
+                    return Err(("c17-plaintext-served-on-tls-port".to_string(), format!("a peer that sent a plain-text HTTP request to the TLS listener (server certificate and client CA configured) was answered {:?}: served without any TLS handshake, so without a client certificate", String::from_utf8_lossy(&got[..got.len().min(40)]))));
+                }
+            }
             // 1. a good rotation
             let l1 = leaf(1);
             std::fs::write(&cert_path, &l1.0).unwrap();
